@@ -5,8 +5,8 @@ from tools.harness import common, route as R
 ID = 'C11'
 TARGETS = ['MindsVerif.Props.C11']
 THEOREMS = ['MindsVerif.Props.C11.' + n for n in (
-    'C11_decision', 'C11_decision_cte', 'C11_witness_1_fixed', 'C11_decision_sound', 'C11_names', 'C11_partial_resolution', 'C11_witness_1', 'C11_witness_2',
-    'C11_resolution_full_false')]
+    'C11_decision', 'C11_decision_cte', 'C11_decision_before_0e75382', 'C11_decision_sound', 'C11_names',
+    'C11_partial_resolution', 'C11_regression_1', 'C11_witness_1', 'C11_resolution_full_false', 'C11_regression_2')]
 ASSUME = [
     'get_query_info, check_single_integration, prepare_integration_select and the walker are hand-modelled '
     '(Model/Route.lean); tie = the plan stream of this run (decision + identifiers of the pushed query vs the real planner)',
@@ -18,7 +18,7 @@ ASSUME = [
     'names are ASCII',
 ]
 DB = 'int1'
-TABLES = R.SCHEMA[DB]
+TABLES = dict(R.SCHEMA[DB], int1=['id', 'x', 'y'])      # a table called like the integration (not used by the generator)
 
 
 def make_dbs(rng):
@@ -59,6 +59,8 @@ def tags_of(ast, pushed):
     tags = []
     if DB in R.all_aliases(ast) or any(str(c).lower() == DB for c in all_cte_names(ast)):
         tags.append('alias=integration')
+    if any(i.alias is None and len(i.parts) > 1 and str(i.parts[-1]).lower() == DB for i, _ in R.table_refs(ast)):
+        tags.append('table=integration')
     if pushed is not None:
         for i, path in R.all_identifiers(pushed):
             if ('Case', 'arg') in path and len(i.parts) > 1 and str(i.parts[0]).lower() == DB:
@@ -117,7 +119,8 @@ def probe_case(cat, sql, dbs):
     pushed = steps[0].query
     ptext = str(pushed)
     tags = tags_of(ast, pushed)
-    aliases = R.all_aliases(ast) | {str(c).lower() for c in all_cte_names(ast)}
+    aliases = R.all_aliases(ast) | {str(c).lower() for c in all_cte_names(ast)} \
+        | {str(i.parts[-1]).lower() for i, _ in R.table_refs(ast) if i.alias is None}      # names a first part may denote locally
     for i, ipath in R.all_identifiers(pushed):
         if len(i.parts) > 1 and isinstance(i.parts[0], str) and i.parts[0].lower() == DB and DB not in aliases:
             fail('unstripped', 'identifier %s of the pushed query %r still starts with the integration name' % (
@@ -301,6 +304,12 @@ def run(chk):
                 stmts.append((c, 'SELECT a.x FROM %s.demo.t AS a JOIN %s.DEMO.s AS b ON a.id = b.id' % (q, q), ['schema.table=project.model']))
                 stmts.append((c, 'SELECT a.x FROM %s.t AS a JOIN %s.s AS b ON b.x' % (q, q), ['on-single-column']))
                 stmts.append((c, 'SELECT a.x FROM %s.t AS a LEFT JOIN %s.s AS b ON b.x WHERE a.y > 0' % (q, q), ['on-single-column']))
+    # an unaliased table whose own name is the integration name
+    for c in (R.Cat([('n', 'int1'), ('n', 'int2')], None, None, 'mindsdb'), R.Cat([('n', 'INT1')], None, None, 'int1')):
+        for q in ('int1', 'INT1'):
+            stmts.append((c, 'SELECT %s.x FROM %s.int1 JOIN %s.s ON %s.id = s.id' % (q, q, q, q), ['table=integration']))
+            stmts.append((c, 'SELECT int1.x, a.z FROM %s.int1 JOIN %s.s AS a ON int1.id = a.id WHERE int1.y > 0' % (q, q), ['table=integration']))
+            stmts.append((c, 'SELECT x FROM %s.int1 WHERE int1.y > 0' % q, ['table=integration']))
     for c, sql, feats in stmts:
         chk.count((c.key(), sql))
         for f in feats:
